@@ -72,6 +72,12 @@ def make_molecule(zs, pos, bonded):
     m = Molecule([Element.from_atomic_number(int(z)) for z in zs], np.array(pos, dtype=float))
     if bonded:
         m.guess_bonds()
+    # names: none / short / a systematic name longer than one 80-column line (every fifth molecule each)
+    k = (len(zs) + int(zs[0])) % 5
+    if k == 1:
+        m.properties["name"] = "water dimer"
+    elif k == 2:
+        m.properties["name"] = "(2S,3R)-2-amino-3-hydroxy-4-[(4-methoxyphenyl)methyl]-N-(2,2,2-trifluoroethyl)pentanediamide hydrochloride monohydrate form II"
     return m
 
 
@@ -281,7 +287,8 @@ def xyz_read(part, z):
                 part.fail("xyz-read:%s:%s" % (sname, sepname), "XYZ with symbol %r (%s, %s) read as %s" % (spelling, sname, sepname, list(m.atomic_numbers)), case)
             part.outcome(("xyzread", sname, sepname))
     # the comment line is free text: empty, blank, or looking like a count / an atom record - it never is an atom and never hides one
-    for comment, cname in (("", "empty"), ("   ", "blanks"), ("\t", "tab"), ("0 1", "charge-multiplicity"), ("2", "number"), ("H 0.0 0.0 0.0", "atom-like")):
+    for comment, cname in (("", "empty"), ("   ", "blanks"), ("\t", "tab"), ("0 1", "charge-multiplicity"), ("2", "number"), ("H 0.0 0.0 0.0", "atom-like"),
+                           ("Au", "symbol-that-reads-as-a-unit"), ("energy = -76.4 au, coordinates in bohr", "unit-words"), ("angstrom", "unit-word")):
         for via in ("text", "molecule"):
             part.ev()
             part.tr()
